@@ -104,6 +104,18 @@ var c07Shapes = map[string]c07Shape{
 			return fmt.Sprintf("%s/note=\"value %d\"\n", qIndent, i)
 		}) + gbTail)
 	}},
+	"qualifiers-distinct-names": {"scan", 600, true, func(n int) []byte {
+		// every qualifier of the feature has a name of its own that the reader has not met before
+		return []byte(gbLocus + gbFeatHdr + "     gene            1..5\n" + rep(n, func(i int) string {
+			switch i % 3 {
+			case 0:
+				return fmt.Sprintf("%s/xq_%d=\"v\"\n", qIndent, i)
+			case 1:
+				return fmt.Sprintf("%s/xl_%d=%d\n", qIndent, i, i)
+			}
+			return fmt.Sprintf("%s/xt_%d\n", qIndent, i)
+		}) + gbTail)
+	}},
 	"qualifiers-mixed": {"scan", 500, true, func(n int) []byte {
 		return []byte(gbLocus + gbFeatHdr + "     CDS             1..5\n" + rep(n, func(i int) string {
 			switch i % 4 {
